@@ -23,7 +23,7 @@ def fold_split_group(repo):
 
 def build(repo, tier, seed):
     tasks = M.hdlc_tasks(repo, None, True) + [("fold_split", fold_split_group, (repo,))]
-    r = M.groups_result(tasks, select=lambda oid: any(c in oid for c in KEEP))
+    r = M.groups_result(tasks, select=None)
     r.functions = sorted(M.READER_FUNCS)
     r.level = "other"
     r.explanation = ("C06: proved from the real source, four configurations: (a) read() is only entered and left with nothing unconsumed, so no state hides in the buffer; (b) every loop iteration is one _read_next "
